@@ -227,11 +227,11 @@ def rule_templates(facts, rep):
     rep.check(ok, "templates", w["path"], "appends-at-len", "", loc(w))
     # as_str exposes buffer[0..len]; Display / write_to emit as_str
     a = facts.body("anstyle", C + "DisplayBuffer::as_str")
-    rng = [n for n in hir.walk(a["hir"]) if n.get("k") == "struct" and hir.last_seg(n["path"].get("path")) == "Range"]
+    rng = [n for n in hir.walk(a["hir"]) if n.get("k") == "struct" and hir.last_seg(n["path"].get("path")) in ("Range", "RangeTo")]
     ok = len(rng) == 1
     if ok:
         f = {x["name"]: x["e"] for x in rng[0]["fields"]}
-        ok = hir.lit_val(f["start"]) == 0 and hir.place_str(f["end"]) == "self.len"
+        ok = ("start" not in f or hir.lit_val(f["start"]) == 0) and hir.place_str(f["end"]) == "self.len"      # [0..len] or [..len]
     rep.check(ok, "templates", a["path"], "exposes-[0..len]", "", loc(a))
 
 
